@@ -25,6 +25,7 @@ import   "github.com/pbenner/autodiff/statistics/scalarDistribution"
 
 import . "github.com/pbenner/autodiff"
 import . "github.com/pbenner/threadpool"
+import   "github.com/pbenner/autodiff/verifhook"
 
 /* -------------------------------------------------------------------------- */
 
@@ -90,6 +91,8 @@ func (obj *LogTransformEstimator) Estimate(gamma ConstVector, p ThreadPool) erro
   //////////////////////////////////////////////////////////////////////////////
   if gamma == nil {
     if err := p.AddRangeJob(0, x.Dim(), g, func(i int, p ThreadPool, erf func() error) error {
+      verifhook.Yield("scalarEstimator.logTransform.job")
+      verifhook.Event("scalarEstimator.logTransform", i, p.GetThreadId())
       obj.NewObservation(x.ConstAt(i), nil, p)
       return nil
     }); err != nil {
@@ -97,12 +100,15 @@ func (obj *LogTransformEstimator) Estimate(gamma ConstVector, p ThreadPool) erro
     }
   } else {
     if err := p.AddRangeJob(0, x.Dim(), g, func(i int, p ThreadPool, erf func() error) error {
+      verifhook.Yield("scalarEstimator.logTransform.job")
+      verifhook.Event("scalarEstimator.logTransform", i, p.GetThreadId())
       obj.NewObservation(x.ConstAt(i), gamma.ConstAt(i), p)
       return nil
     }); err != nil {
       return err
     }
   }
+  verifhook.Yield("scalarEstimator.logTransform.queued")
   if err := p.Wait(g); err != nil {
     return err
   }
